@@ -31,7 +31,7 @@ def shards(tier):
 def required_counters(tier):
     d = {f'monitor:to_mask:{c}:center': 10 for c in gen.MASKABLE + ['CompoundPixelRegion']}
     d.update({f'monitor:to_mask:{c}:subpixels': 10 for c in gen.SIMPLE_PIX})
-    d.update({'judged:mask-pixels': 10000, 'judged:n1-equals-center': 50, 'judged:unsupported-raises': 50, 'judged:invalid-raises': 50})
+    d.update({'judged:mask-pixels': 10000, 'judged:n1-equals-center': 50, 'judged:unsupported-raises': 50, 'judged:invalid-raises': 50, 'history-steps': 50})
     return d
 
 
@@ -83,7 +83,8 @@ def generate(rng, tier, shard, nshards):
         annulus = 'Annulus' in reg['cls']
         mode = 'center' if annulus else rng.choice(['center', 'subpixels', 'subpixels', 'subpixels'])
         nsub = rng.randint(1, 12) if not big else rng.randint(1, 2)
-        yield {'lane': reg['cls'] + ':' + mode, 'region': reg, 'mode': mode, 'n': nsub}
+        yield {'lane': reg['cls'] + ':' + mode, 'region': reg, 'mode': mode, 'n': nsub,
+               'history': rng.randrange(1, 2 ** 31) if (rng.random() < 0.3 and not big) else 0}
 
 
 def shift_to(spec, cx, cy):
@@ -94,7 +95,10 @@ def shift_to(spec, cx, cy):
     elif 'vertices' in p:
         vx = np.array(p['vertices']['x']['a'], dtype=float)
         vy = np.array(p['vertices']['y']['a'], dtype=float)
-        p['vertices'] = S.pix(S.arr_spec(vx - vx.mean() + cx), S.arr_spec(vy - vy.mean() + cy))
+        if 'origin' in p:
+            p['origin'] = S.pix(cx - vx.mean(), cy - vy.mean())
+        else:
+            p['vertices'] = S.pix(S.arr_spec(vx - vx.mean() + cx), S.arr_spec(vy - vy.mean() + cy))
     return spec
 
 
@@ -107,6 +111,19 @@ def run_case(case, obs):
         m = region.to_mask(mode='center') if n % 2 else region.to_mask()      # default mode is 'center'
     else:
         m = region.to_mask(mode='subpixels', subpixels=n)
+    if case.get('history'):
+        import random
+        prng = random.Random(case['history'])
+        for _ in range(2):
+            gen.mutate_live(region, prng)
+            obs.count('history-steps')
+            bb = region.bounding_box
+            if bb.shape[0] * bb.shape[1] * n * n > 2_000_000:
+                break
+            if mode == 'center':
+                region.to_mask(mode='center')
+            else:
+                region.to_mask(mode='subpixels', subpixels=n)
     # n = 1 is identical to 'center'
     cls = type(region).__name__
     if cls in gen.SIMPLE_PIX and (n == 1 or mode == 'center'):
